@@ -73,6 +73,7 @@ type Program struct {
 	extConsts     map[string]bool
 	extErrs       map[string]bool
 	provedDeps    map[string]bool
+	fnDeps        map[string]map[string]bool
 	inlined       map[string]bool
 	initBig       map[string]string // reference (numeral) -> value given by big.NewInt in the package initialiser
 	localsTable   map[string]map[string]localType
@@ -82,7 +83,7 @@ func LoadProgram(repo string) (*Program, error) {
 	p := &Program{RepoDir: repo, initVals: map[*ssa.Global]SV{}, onceIDs: map[*ssa.Global]int{},
 		touchCache: map[*ssa.Function]map[string]bool{}, touchGlobals: map[*ssa.Function]map[*ssa.Global]bool{},
 		usedDeps: map[string]bool{}, usedContracts: map[string]bool{}, preludeCache: map[bool]string{},
-		verifFiles: map[string]bool{}, extConsts: map[string]bool{}, extErrs: map[string]bool{}, provedDeps: map[string]bool{}, inlined: map[string]bool{}, initBig: map[string]string{}, lits: map[string]string{}}
+		verifFiles: map[string]bool{}, extConsts: map[string]bool{}, extErrs: map[string]bool{}, provedDeps: map[string]bool{}, fnDeps: map[string]map[string]bool{}, inlined: map[string]bool{}, initBig: map[string]string{}, lits: map[string]string{}}
 	p.Fset = token.NewFileSet()
 	cfg := &packages.Config{
 		Mode:       packages.LoadAllSyntax,
